@@ -422,7 +422,19 @@ pub fn run_random(rec: &mut Rec, seed: u64, run: u64, nops: usize) {
                             },
                             _ => amt,
                         };
-                        vec![Atom::Loan { x: Uint128::new(amt2), sub: inner }, Atom::Repay { x: Uint128::new(outer_rep.max(1)) }]
+                        // after the inner loan has completed: repay, or re-enter the vault first (a deposit made now is
+                        // still inside the outer loan), or let a deposit stand in for the repayment
+                        let rep = Atom::Repay { x: Uint128::new(outer_rep.max(1)) };
+                        let dep = Atom::Deposit { x: Uint128::new(match r.gen_range(0..3) { 0 => outer_rep.max(1001), 1 => gen::amount(&mut r, amt.max(2000)), _ => outer_rep.saturating_add(gen::amount(&mut r, 5000)).max(1001) }) };
+                        let lpa2 = A::Cw20(p.lp.clone());
+                        let adv_sh = p.w.balance(&p.adv, &lpa2);
+                        match r.gen_range(0..8) {
+                            0 => vec![Atom::Loan { x: Uint128::new(amt2), sub: inner }, dep],
+                            1 => vec![Atom::Loan { x: Uint128::new(amt2), sub: inner }, dep, rep],
+                            2 => vec![Atom::Loan { x: Uint128::new(amt2), sub: inner }, Atom::Withdraw { x: Uint128::new(gen::amount(&mut r, adv_sh.max(1))) }, rep],
+                            3 => vec![Atom::Loan { x: Uint128::new(amt2), sub: inner }, Atom::Collect {}, rep],
+                            _ => vec![Atom::Loan { x: Uint128::new(amt2), sub: inner }, rep],
+                        }
                     }
                     _ => simple_script(&mut r, &p, amt),
                 };
